@@ -325,10 +325,10 @@ Step(ev, a) ==
     /\ st' = ApplyAny(st, ev, a).st
     /\ hist' = Append(hist, [ev |-> ev, a |-> a])
 
-Building == Scenario \notin {"remove", "protect", "transpose", "batch", "tempish"}
+Building == Scenario \notin {"remove", "protect", "transpose", "batch", "tempish", "delete"}
 \* tuning steps do not change the specification state, so they are only worth generating when histories are emitted
 Tuning == ~EmitAll
-Adding == Scenario \notin {"remove", "offsets", "related", "textops", "batch", "tempish", "complexrel", "complexmeta"}
+Adding == Scenario \notin {"remove", "offsets", "related", "textops", "batch", "tempish", "complexrel", "complexmeta", "delete"}
 \* C07: one resource per behaviour, over every text up to P1 characters of the alphabet selected by P2
 TextAlphabet == CASE P2 = 1 -> {11, 41, 12} [] P2 = 2 -> {11, 22, 32} [] P2 = 3 -> {11, 31, 21}
                        [] P2 = 5 -> {11, 32, 43}      \* a character that grows and one that shrinks when lower-cased
@@ -367,6 +367,14 @@ Next ==
     \/ Scenario = "tempish" /\ \E i \in {"!Sx", "!S"} : Step("AddDataset", [id |-> i])
     \/ Scenario = "tempish" /\ \E i \in {"!Ax", "!A", "!Ay"}, r \in {"!Rx", "r1"} :
           Step("Annotate", [id |-> i, target |-> TB("Text", ById(r), NoRef, Off("B", 1, "B", 2)), data |-> <<DB(ById("!Sx"), ById("!Kx"), ById("!Dx"), StrVal("v1"))>>])
+    \* C02: removal by query (scenario "delete": DELETE queries only, over preludes with chains and shared data)
+    \/ Scenario = "delete" /\ \E sub \in {Q("SELECT", "ANNOTATION", "x", <<>>, <<>>), Q("SELECT", "ANNOTATION", "x", <<CRes("r1", FALSE)>>, <<>>),
+                                           Q("SELECT", "ANNOTATION", "x", <<CKey("s1", "k1", FALSE)>>, <<>>), Q("SELECT", "ANNOTATION", "x", <<CId("a1")>>, <<>>),
+                                           Q("SELECT", "ANNOTATION", "x", <<CRes("r1", TRUE)>>, <<>>),
+                                           Q("SELECT", "ANNOTATION", "x", <<CAnn("a1", TRUE, FALSE)>>, <<>>), Q("SELECT", "ANNOTATION", "x", <<CAnn("a5", FALSE, TRUE)>>, <<>>),
+                                           Q("SELECT", "ANNOTATION", "x", <<CSet("s1", FALSE)>>, <<>>), Q("SELECT", "ANNOTATION", "x", <<CId("nope")>>, <<>>)} :
+          \* (the DELETE syntax only admits ANNOTATION as its type)
+          Step("QueryDelete", [sub |-> sub])
     \/ Scenario = "batch" /\ \E i \in {"", "q1", "a1"}, d \in {<<>>, <<DB(ById("s1"), ById("k7"), NoRef, StrVal("v7"))>>},
                                   sub \in {Q("SELECT", "TEXT", "y", <<CAnn("a1", FALSE, FALSE)>>, <<>>), Q("SELECT", "ANNOTATION", "y", <<CRes("r1", FALSE)>>, <<>>),
                                            Q("SELECT", "ANNOTATION", "y", <<CId("a1")>>, <<>>), Q("SELECT", "ANNOTATION", "y", <<CId("nope")>>, <<>>),
